@@ -338,8 +338,8 @@ class Compiler:
             graph = graph.with_entrypoint(*g["entrypoints"])
             if touch:
                 self._touch_graph(graph)
-        if g.get("select"):
-            graph = graph.select(*g["select"])
+        if g.get("select") is not None:
+            graph = graph.select(*g["select"])  # (an EMPTY default selection is legal: the graph exposes nothing)
             if touch:
                 self._touch_graph(graph)
         if sib:
